@@ -276,7 +276,7 @@ func newDecls() *Decls {
 const preamble = `(declare-sort Str 0)
 (declare-sort Flt 0)
 (declare-fun strlen (Str) Int)
-(assert (forall ((s Str)) (>= (strlen s) 0)))
+(assert (forall ((s Str)) (! (>= (strlen s) 0) :pattern ((strlen s)))))
 (declare-datatypes ((Slc 1)) ((par (E) ((mk-slc (slc-arr (Array Int E)) (slc-off Int) (slc-len Int))))))
 (declare-datatypes ((Mp 2)) ((par (K V) ((mk-mp (mp-dom (Array K Bool)) (mp-val (Array K V)) (mp-card Int))))))
 (define-fun wrap_u8 ((x Int)) Int (mod x 256))
@@ -294,7 +294,7 @@ const preamble = `(declare-sort Str 0)
 (declare-fun bytes2str ((Slc Int)) Str)
 (declare-fun str2bytes (Str) (Slc Int))
 (declare-fun errors_is (Int Int) Bool)
-(assert (forall ((e Int)) (errors_is e e)))
+(assert (forall ((e Int)) (! (errors_is e e) :pattern ((errors_is e e)))))
 `
 
 func sanitize(s string) string {
